@@ -1,4 +1,5 @@
 import Batteries.Tactic.Alias
+import GenlmModel.Proofs.PrefixWeight
 import GenlmModel.Proofs.DerivSkip
 import GenlmModel.Proofs.Deriv
 import GenlmModel.Proofs.PrefixT
@@ -17,4 +18,12 @@ alias derivative_keeps_old_symbols := Genlm.derivative_old
 /-- differentiating twice by the same token (the SKIP re-use of existing slash symbols) -/
 alias derivative_twice_le := Genlm.derivative_twice_le
 alias derivative_twice_ge := Genlm.derivative_twice_ge
+/-- THE prefix-weight theorem: the prefix grammar `G @ prefix_transducer` and the sum of the weights of the derivations of
+strings with prefix p bound each other at adjacent levels (every string counted once) -/
+alias prefix_weight := Genlm.prefix_weight
+alias prefix_weight_exact := Genlm.prefix_weight_exact
+alias prefix_weight_limit := Genlm.prefix_weight_limit
+/-- prefix sums count each string once and satisfy the prefix recurrence -/
+alias prefix_sum_is_sum_over_strings := Genlm.prefixWN_eq_sum_strsLe
+alias prefix_recurrence := Genlm.prefixWN_consistent
 end Genlm.Props.C03
